@@ -483,6 +483,13 @@ impl<SD, E: Exfiltrator> SignalIterator<SD, E> {
 
             match self.signals.borrow_mut().poll_pending(has_signals) {
                 Ok(Some(pending)) => self.iter = pending,
+                // None means either that the callback found nothing to read (and the caller will
+                // be woken up once there is), or that the instance got closed after the check
+                // above, in which case the callback was not consulted at all and nobody would
+                // ever wake the caller up again.
+                Ok(None) if self.signals.borrow_mut().handle.is_closed() => {
+                    return PollResult::Closed
+                }
                 Ok(None) => return PollResult::Pending,
                 Err(err) => return PollResult::Err(err),
             }
